@@ -3,7 +3,10 @@ from . import expr as X
 from .match import norm
 
 NEG = {'eq': 'ne', 'ne': 'eq', 'lt': 'ge', 'ge': 'lt', 'le': 'gt', 'gt': 'le'}
-BINREL = {'Eq': 'eq', 'Ne': 'ne', 'Lt': 'lt', 'Le': 'le', 'Gt': 'gt', 'Ge': 'ge'}
+BINREL = {'Eq': 'eq', 'Ne': 'ne', 'Lt': 'lt', 'Le': 'le', 'Gt': 'gt', 'Ge': 'ge', 'FLt': 'lt', 'FLe': 'le', 'FGt': 'gt', 'FGe': 'ge'}
+# negation of a *partial* order test (floats; PartialOrd through a call on an unknown type): "not less", "not greater or equal", ...
+# These relation names are deliberately matched by no rule: nothing follows from them (NaN).
+NEG_PARTIAL = {'eq': 'ne', 'ne': 'eq', 'lt': 'nlt', 'ge': 'nge', 'le': 'nle', 'gt': 'ngt'}
 CALLREL = {'PartialEq::eq': 'eq', 'PartialEq::ne': 'ne', 'PartialOrd::lt': 'lt', 'PartialOrd::le': 'le',
            'PartialOrd::gt': 'gt', 'PartialOrd::ge': 'ge'}
 
@@ -55,14 +58,15 @@ def as_relation(e, truth):
     if e[0] == 'bin' and e[1] in BINREL:
         r = BINREL[e[1]]
         if not truth:
-            r = NEG[r]
+            r = NEG_PARTIAL[r] if e[1].startswith('F') else NEG[r]
         return (r, e[2], e[3])
     if e[0] == 'call' and len(e[2]) == 2:
         last = e[1].rsplit('::', 1)[-1]
         if last in ('eq', 'ne', 'lt', 'le', 'gt', 'ge'):
             r = last
             if not truth:
-                r = NEG[r]
+                # PartialOrd through a call: the operand type is generic or a reference (it may be a float): partial
+                r = NEG_PARTIAL[r]
             return (r, e[2][0], e[2][1])
     return ('true' if truth else 'false', e)
 
